@@ -213,6 +213,9 @@ class Worker:
         env = dict(os.environ)
         env["VERIF_WALL_S"] = str(self.wall_s)
         env["RUST_BACKTRACE"] = "0"
+        # the worker runs under RLIMIT_AS: keep glibc from reserving a 64 MiB arena per thread (a THREADS batch would exhaust
+        # the address space and thread creation would fail - a harness artefact, not a property of svgdx)
+        env["MALLOC_ARENA_MAX"] = "4"
         self.p = subprocess.Popen([WORKER_BIN], stdin=subprocess.PIPE, stdout=subprocess.PIPE,
                                   stderr=subprocess.DEVNULL, env=env, preexec_fn=_limits)
 
@@ -343,6 +346,9 @@ class Worker:
         for jid in ids:
             if jid in rets:
                 out.append((calls.get(jid), rets[jid][0], rets[jid][1]))
+            elif self.p.poll() is None:
+                # the process is alive but the job has no return event: the worker could not run it (thread creation failed)
+                out.append((calls.get(jid), None, Result(status="harness", msg="no return event, worker alive")))
             else:
                 out.append((calls.get(jid), None, Result(status="died")))
         if self.p.poll() is not None:
